@@ -2724,6 +2724,9 @@ func (r *repoT) GobEncode() ([]byte, error) {
 }
 
 func (r *repoT) MarshalJSON() (b []byte, err error) {
+	r.mutMu.RLock()
+	mutCurID, mutSavedID := r.mutCurID, r.mutSavedID
+	r.mutMu.RUnlock()
 	r.RLock()
 	b, err = json.Marshal(struct {
 		Root            dvid.UUID
@@ -2745,8 +2748,8 @@ func (r *repoT) MarshalJSON() (b []byte, err error) {
 		r.properties,
 		r.data,
 		r.dag,
-		r.mutCurID,
-		r.mutSavedID,
+		mutCurID,
+		mutSavedID,
 		r.created,
 		r.updated,
 	})
